@@ -458,6 +458,17 @@ Proof.
   - destruct (ts_buf s); reflexivity.
 Qed.
 
+Lemma member_eqb_eq a b : member_eqb a b = true -> a = b.
+Proof.
+  unfold member_eqb. destruct a, b. cbn. rewrite !andb_true_iff, !seqb_eq. intros [[[H1 H2] H3] H4]. congruence.
+Qed.
+
+Lemma members_eqb_sound l1 : forall l2, members_eqb l1 l2 = true -> l1 = l2.
+Proof.
+  induction l1 as [|a t IH]; intros [|b t2] H; cbn in H; try discriminate; [reflexivity|].
+  apply andb_true_iff in H as [H1 H2]. apply member_eqb_eq in H1. apply IH in H2. congruence.
+Qed.
+
 Lemma table_old_refuted : lockset_ok table_old = false /\ ~ race_free table_old.
 Proof.
   split; [vm_compute; reflexivity|]. intro H.
